@@ -1,5 +1,6 @@
 """Native replay for C01: nodal balance of element results against branch flows at every bus.  exit 1 = reproduced."""
 import sys
+import copy
 import numpy as np
 import pandapower as pp
 
@@ -211,3 +212,49 @@ def main_elements():
 
 if __name__ == "__main__":
     {"main": main, "zip": main_zip, "single_slack": main_single_slack, "zip_machines": main_zip_machines}[sys.argv[1] if len(sys.argv) > 1 else "main"]()
+
+
+def main_tables_and_facts():
+    """a shunt that follows a step table at step 0; DC power flow of a net with an SSC"""
+    import pandas as pd
+    fails = []
+    net = pp.create_empty_network()
+    b = [pp.create_bus(net, 20.) for _ in range(4)]
+    pp.create_ext_grid(net, b[0], vm_pu=1.02)
+    for i in range(3):
+        pp.create_line(net, b[i], b[i + 1], 3., "NA2XS2Y 1x185 RM/25 12/20 kV")
+    pp.create_load(net, b[1], 2., 0.5); pp.create_load(net, b[3], 1., 0.2)
+    net["shunt_characteristic_table"] = pd.DataFrame({"id_characteristic": [0, 0, 0, 0], "step": [0, 1, 2, 3], "q_mvar": [0., -1., -2.2, -3.5],
+                                                      "p_mw": [0., .01, .03, .06]})
+    for step in (0, 2):
+        n = copy.deepcopy(net)
+        pp.create_shunt(n, b[1], q_mvar=-1., p_mw=0.01, step=step, max_step=3, step_dependency_table=True, id_characteristic_table=0)
+        pp.create_shunt(n, b[2], q_mvar=0.7, p_mw=0.02, step=1, max_step=3)
+        pp.runpp(n)
+        for bus in n.bus.index:
+            flow = n.res_line.p_from_mw[n.line.from_bus == bus].sum() + n.res_line.p_to_mw[n.line.to_bus == bus].sum()
+            cons = n.res_load.p_mw[n.load.bus == bus].sum() + n.res_shunt.p_mw[n.shunt.bus == bus].sum(skipna=False) - \
+                n.res_ext_grid.p_mw[n.ext_grid.bus == bus].sum()
+            if not abs(cons + flow) < 1e-6 or not abs(n.res_bus.p_mw.at[bus] + flow) < 1e-6:
+                fails.append(f"shunt with step_dependency_table at step {step}: bus {bus}: elements take {cons} MW, res_bus.p_mw = "
+                             f"{n.res_bus.p_mw.at[bus]}, the lines deliver {-flow:.6f} MW")
+                break
+    # DC power flow with an SSC: either refused or a finite, balanced result
+    n = pp.create_empty_network()
+    b = pp.create_buses(n, 3, 110.)
+    pp.create_ext_grid(n, b[0])
+    pp.create_line_from_parameters(n, b[0], b[1], 30., 0.06, 0.3, 10., 0.6); pp.create_line_from_parameters(n, b[1], b[2], 30., 0.06, 0.3, 10., 0.6)
+    pp.create_load(n, b[2], 20., 5.)
+    pp.create_ssc(n, b[1], r_ohm=0., x_ohm=5., set_vm_pu=1.0)
+    try:
+        pp.rundcpp(n)
+        if n.converged and (n.res_bus.va_degree.isna().any() or np.isnan(n.res_ext_grid.p_mw.sum())):
+            fails.append(f"rundcpp on a net with an SSC: converged = True, res_ext_grid.p_mw = {n.res_ext_grid.p_mw.values.tolist()}, "
+                         f"res_bus.va_degree = {n.res_bus.va_degree.values.tolist()}")
+    except NotImplementedError:
+        pass
+    for f in fails:
+        print("REPRODUCED:", f)
+    if not fails:
+        print("not reproduced: balance holds with a table shunt at step 0; the DC power flow does not report convergence with NaN results")
+    sys.exit(1 if fails else 0)
